@@ -17,6 +17,8 @@ constexpr int MAXT = 16; // virtual threads per execution (T0 included)
 // ---------------------------------------------------------------- choices
 int choose(int n);      // DATA choice in [0,n): fully enumerated, cost 0
 int choose_rand(int n); // RAND choice in [0,n): alternatives != 0 cost one "random deviation"
+void set_rand_domain(int n); // domain of xenium::utils::random() (hook XENIUM_VERIF): values 0..n-1, default 1
+int rand_domain();
 
 // ---------------------------------------------------------------- threads
 int spawn_raw(void (*fn)(void*), void* arg);
@@ -66,6 +68,7 @@ struct Event {
 int op_begin(int op, long a0 = 0, long a1 = 0, bool lockfree = true);
 void op_end(long r0 = 0, long r1 = 0);
 int history_size();
+void history_reset(); // forget the recorded operations (long sequential conformance runs that check on the fly)
 const Event& history_at(int i);
 bool hb_mode(); // true in wmm mode: precedence between operations is happens-before (vector clocks)
 // a precedes b (a's response before b's invocation, by step in sc mode, by hb in wmm mode)
